@@ -24,6 +24,13 @@ agent was slow), and the loop's `timeout_seconds` (milliseconds here, /1000 at t
 configuration and assignable like the other attributes (operation "s", attribute "timeout").  The property speaks of
 the agents' verdicts, not of verdicts that came in time: the monitor judges a reply on what the agents answered
 however long they took.
+AGENTS AT LARGE: the executor / assessor are whatever objects a caller puts into the loop.  A verdict's `var` also says
+which `source_agent` label the stub's protein carries (none, the usual names of the two agents, a helper's name, a model
+label, the empty string); a share of the histories runs BioAgent SUBCLASSES (an assessor whose _mock_llm hook relays the
+protein of a helper agent with a name of its own) behind the recorder; and verdict code 9 is an agent that raises a
+BaseException that is not an Exception (KeyboardInterrupt, SystemExit, GeneratorExit, a class of its own).  The property
+speaks of what COMES BACK: an exception that reaches the caller of run() is not a reply (nothing to judge, and nobody's
+original for a later cached reply); a reply that does come back although an agent raised must be blocked.
 translate() rebuilds the gate decision table by calling the real
 _apply_gate_logic on every combination and writes it to coq/gen/Gen_C07.v, where
 Gen_C07_ok / Gen_C07_complete must re-prove that the model's gate is that table.
@@ -42,11 +49,24 @@ from .common import Check, Violation, cz, cbool, clist, cstr, ctuple, cnat
 
 LOGIC_NAMES = ["AND", "OR", "MAJORITY", "UNANIMOUS", "EXECUTOR_PRIORITY", "ASSESSOR_PRIORITY"]
 LOGIC_COQ = ["LAnd", "LOr", "LMajority", "LUnanimous", "LExecPrio", "LAssessPrio"]
-# verdict codes: 0..5 the six action types, 6 any other string, 7 the agent raised,
-# 8 (monitor only) the agent was not asked at this request
+# verdict codes: 0..5 the six action types, 6 any other string, 7 the agent raised (an Exception),
+# 8 (monitor only) the agent was not asked at this request, 9 the agent raised a BaseException that is
+# not an Exception (KeyboardInterrupt, SystemExit, GeneratorExit, a class of its own)
 VERDICT_STR = ["EXECUTE", "PERMIT", "BLOCK", "FAILURE", "DEFER", "UNKNOWN"]
-VERDICT_COQ = ["VExecute", "VPermit", "VBlock", "VFailure", "VDefer", "VUnknown", "VOther", "VRaised", "(not asked)"]
+VERDICT_COQ = ["VExecute", "VPermit", "VBlock", "VFailure", "VDefer", "VUnknown", "VOther", "VRaised", "(not asked)",
+               "(raised a BaseException that is not an Exception)"]
 NOT_ASKED = 8
+ABORT = 9
+RAISING = (7, ABORT)
+# ActionProtein.source_agent of the protein an agent returns: nothing, the (usual) names of the two agents,
+# the name of a helper whose protein is relayed, a model label, the empty string.  Which one a stub attaches
+# is part of the request: LABELS[(var // 9) % 8] of the verdict's `var` (var < 9: none)
+LABELS = [None, "Gene_Y (Risk)", "Gene_Z (Exec)", "Triage-Bot", "gpt-risk-v2", "", "assessor-2", "Z"]
+
+
+def label_of(var):
+    return LABELS[(var // 9) % len(LABELS)]
+
 OTHER_STRS = ["permit", "", "SUCCESS", "Execute", "PERMIT ", "block", "APPROVE", "execute", " BLOCK"]
 ACTION_CODE = {"SUCCESS": 0, "BLOCKED": 1, "FAILURE": 2, "SKIPPED": 3, "ERROR": 4, "CIRCUIT_OPEN": 5}
 NEVER = 10 ** 9  # a failure_threshold no history reaches
@@ -159,6 +179,15 @@ class AgentCrash(Exception):
 EXCS = [ValueError, RuntimeError, KeyError, AgentCrash, TimeoutError, ZeroDivisionError]
 
 
+class AgentAbort(BaseException):
+    """An agent's own 'stop everything' exception: a BaseException that is not an Exception."""
+
+
+# what an agent raises at verdict code 9 (operator hits Ctrl-C inside a tool callback, a plug-in calls sys.exit(),
+# a streaming generator is closed, a class of the agent's own)
+ABORTS = [KeyboardInterrupt, SystemExit, GeneratorExit, AgentAbort]
+
+
 class VClock:
     """Stands in for the name `datetime` inside operon_ai.topology.loops (time in milliseconds)."""
 
@@ -202,8 +231,11 @@ class Stub:
         code, var = rq["script"][self.role]
         if code == 7:
             raise EXCS[var % len(EXCS)](f"stub {self.name!r} crashed")
+        if code == ABORT:
+            rq["abort"] = ABORTS[var % len(ABORTS)](f"stub {self.name!r} was interrupted")
+            raise rq["abort"]
         s = VERDICT_STR[code] if code < 6 else OTHER_STRS[var % len(OTHER_STRS)]
-        return self.AP(action_type=s, payload=f"{s}/{var}", confidence=0.5)
+        return self.AP(action_type=s, payload=f"{s}/{var}", confidence=0.5, source_agent=label_of(var))
 
 
 def pass_time(clock, ms):
@@ -250,6 +282,33 @@ class Recorder:
         return out
 
 
+def make_relay_agents(loop):
+    """Two subclasses of BioAgent in place of a loop's stock agents (same names, same roles, same budget)."""
+    from operon_ai.core.agent import BioAgent
+
+    class SecondOpinionAssessor(BioAgent):
+        """Risk assessor whose _mock_llm hook asks a helper agent and relays the helper's protein."""
+
+        def __init__(self, name, atp_store, helper):
+            super().__init__(name, role="RiskAssessor", atp_store=atp_store)
+            self.helper = helper
+
+        def _mock_llm(self, prompt, signal):
+            opinion = self.helper.express(signal)
+            return opinion.with_confidence(min(opinion.confidence, 0.8))
+
+    class CarefulExecutor(BioAgent):
+        """Executor subclass: what the stock executor says, handed on as a protein of its own making."""
+
+        def express(self, signal):
+            out = super().express(signal)
+            return out.with_confidence(out.confidence)
+
+    helper = BioAgent("Triage-Bot", role="RiskAssessor", atp_store=loop.budget)
+    return (SecondOpinionAssessor(loop.assessor.name, loop.budget, helper),
+            CarefulExecutor(loop.executor.name, role="Executor", atp_store=loop.budget))
+
+
 def sha16(p):
     return hashlib.sha256(p.encode()).hexdigest()[:16]
 
@@ -264,7 +323,7 @@ def md16(p):
 
 def spec_pass(logic, z, y):
     """May a request whose agents answered (z, y) come back not-blocked?"""
-    if z == 7 or y == 7:                    # any agent exception yields blocked
+    if z in RAISING or y in RAISING:        # any agent exception yields blocked
         return False
     executor_permits = z in (0, 1)          # EXECUTE / PERMIT
     assessor_permits = y == 1               # PERMIT
@@ -289,7 +348,7 @@ class C07(Check):
     PID = "C07"
     HEADER = "From Verif Require Import C07.Model."
     RUN = "run_case"
-    N_QUICK = 900
+    N_QUICK = 800
     N_THOROUGH = 20000
     RULE = ("a case is a history of operations - run(prompt) at a clock value with scripted agent behaviour, clear_cache(), "
             "reset_circuit_breaker(), the read-only calls, assignments to the configuration attributes of the live object "
@@ -328,7 +387,17 @@ class C07(Check):
             "assessor (thorough tier: / both) x all 8 x 8 verdict pairs; 6 logics x 8 situations (TTL counted from the moment a "
             "slow reply was produced, timeout_seconds assigned between / during requests, the breaker told when the raising "
             "executor had answered, a cached reply takes no time, two loops with two timeouts, the built-in BioAgents delayed "
-            "behind the recorder, slow within the timeout) over 10 verdict pairs. random: 1..14 operations (5% clear_cache, 7% read-only calls, 4% reset_circuit_breaker) on 1 or 2 loops over "
+            "behind the recorder, slow within the timeout) over 10 verdict pairs; AGENTS AT LARGE: 6 logics x 4 classes of "
+            "BaseException that is not an Exception (KeyboardInterrupt, SystemExit, GeneratorExit, own class) x raised by the "
+            "executor / the assessor x what the loop holds for the prompt (nothing, a valid approval, one exactly at / past the "
+            "TTL) + what it holds afterwards = 48 histories; 6 logics x 9 situations (all 8 verdicts of the other agent, breaker "
+            "not told, the breaker's probe left by the exception, the request in flight on a thread / re-entrant, raised while "
+            "another request is in flight, two loops, a slow agent that then raises, assignments around it); proteins with a "
+            "source_agent label: 6 logics x 8 labels on the assessor's protein (none, 'Gene_Y (Risk)', 'Gene_Z (Exec)', "
+            "'Triage-Bot', 'gpt-risk-v2', '', 'assessor-2', 'Z': the assessor's own name, the executor's, a helper's, a model's) "
+            "x 8 verdict pairs, fresh and cached, renamed assessor; labelled proteins on requests in flight and slow ones; 12 "
+            "histories with BioAgent subclasses (assessor relaying a helper agent's protein through the _mock_llm hook); every "
+            "enumerated table's `var` also varies the labels. random: 1..14 operations (5% clear_cache, 7% read-only calls, 4% reset_circuit_breaker) on 1 or 2 loops over "
             "the re-spellings of one base text plus 0..2 unrelated texts; prompt alphabet = 23 base texts x 30 re-spellings "
             "(whitespace, case, NFC/NFD/NFKC/NFKD, full-width, ligatures, homoglyphs, zero-width/BOM/NUL, truncations and "
             "extensions beyond 16/64 chars; non-BMP, RTL, Hangul, combining sequences); clock steps in {0,1,40,50,60,999,1000,"
@@ -344,6 +413,9 @@ class C07(Check):
             "from the lists above); 1 in 4 random histories is timed: timeout_seconds per loop from {0,1,2 ms (2 in 3), 30 s, "
             "1000 s}, 45% of its requests in one go with delays from {0,0,0,3,5,8,30,60} ms per agent, 0..2 assignments of "
             "timeout_seconds anywhere (also while requests are in flight). "
+            "3 in 10 random histories have labelled proteins (var < 72), 1 in 5 has agents that raise a "
+            "BaseException that is not an Exception at a quarter of its requests (begun ones too), 3 in 10 of the built-in "
+            "ones use the BioAgent subclasses. "
             "distinct by case content; non-trivial = every enumerated "
             "cell, and a random history only if it contains a cache hit, an expiry, an exception, a breaker rejection or a "
             "not-blocked reply or a request that was suspended or a request whose agents needed time")
@@ -380,7 +452,14 @@ class C07(Check):
                   "and ALL timeouts the reply of a request whose agents were asked is the gate's outcome on its own agents' answers "
                   "(a verdict that comes late is still the verdict), every not-blocked reply satisfies the logic, cached replies "
                   "repeat an earlier reply within the TTL counted from when that one was produced, tokens are bound as before; the "
-                  "events of a history do not depend on timeout_seconds at all; two timed objects stay isolated. The gate table is "
+                  "events of a history do not depend on timeout_seconds at all; two timed objects stay isolated; AGENTS AT LARGE (proteins "
+                  "that carry a source_agent label, agents that raise a BaseException that is not an Exception, at requests in one "
+                  "go or in flight): the events of a history do not depend on the labels at all (any relabelling, labels taken "
+                  "off), a request left by such an exception either asked nobody (the usual reply) or has NO reply, stores "
+                  "nothing and touches neither configuration nor requests in flight; for all such histories every not-blocked "
+                  "reply satisfies the logic in force when it was decided, cached replies repeat an earlier RETURNED reply to "
+                  "the same prompt within the TTL, every token is bound to H(prompt), was given on the assessor's PERMIT and "
+                  "names the assessor's name in force; two such objects stay isolated. The gate table is "
                   "regenerated from the real _apply_gate_logic on every run and re-proved equal to the model's.")
     LEVEL_NOTE = ("Trusts: Coq kernel+VM; harness and enumeration translator; sha256/md5 truncations abstract (H, K), both "
                   "injective on each history's prompts (checked per case); configuration changed only by plain assignment of "
@@ -393,7 +472,9 @@ class C07(Check):
                  "arbitrary interleavings + the same invariant with the configuration as part of the state (entry = own gate outcome "
                  "of an earlier request under the configuration in force at that moment) for histories with assignments; the same "
                  "invariant once more for timed histories (slow request = enter at t, leave at t + elapsed; timeout carried, read by "
-                 "nothing) + erasure lemma for timeout_seconds; table regenerated by enumeration of the real function; vm_compute correspondence against "
+                 "nothing) + erasure lemma for timeout_seconds; the same invariant for histories with agents at large (one-step lemmas "
+                 "tstep_ok / wstep_ok: an exception that leaves run() is its first half, an event without reply) + erasure lemma "
+                 "for protein labels; table regenerated by enumeration of the real function; vm_compute correspondence against "
                  "CoherentFeedForwardLoop.run")
     TRUSTED = ["modelled not verified: sha256(prompt)[:16] and md5(prompt)[:16] are abstract functions H and K; the harness "
                "checks on every case that both are injective on the prompts of the case and observes only whether "
@@ -405,7 +486,9 @@ class C07(Check):
                "whether a reply is a cached one is decided by the monitor from whether the stubs were invoked at that "
                "request, not from LoopResult.cached (which is compared with the model only); a reply for which nobody was "
                "asked and which is blocked, token-less, CIRCUIT_OPEN on a loop with the breaker enabled counts as a breaker "
-               "rejection (blocked: nothing more is demanded of it)",
+               "rejection (blocked: nothing more is demanded of it); clear_cache() ends the lifetime of this loop object's "
+               "originals: a reply for which nobody is asked after it is not a cached reply (the cache is empty) and has to have "
+               "an original that RETURNED after the clear",
                "the breaker's state is not observed directly, only through which requests it rejects (its own "
                "behaviour is C08); on_block/on_permit are recording callbacks or absent, never raising ones; "
                "stdout captured when silent=False and around the built-in agents (which always print)",
@@ -432,6 +515,12 @@ class C07(Check):
                "clock values that show in later cache / breaker behaviour; the model carries timeout_seconds and reads it nowhere, "
                "as the code does; an implementation that runs agents on other threads to enforce a deadline is outside what the "
                "stubs can drive (reported as a driver error)",
+               "agents at large: a stub's protein is an ActionProtein with str action_type, payload, confidence 0.5 and a "
+               "source_agent from 8 values (other fields default); the BioAgent subclasses used are two (an assessor relaying a "
+               "helper BioAgent's protein via _mock_llm + with_confidence, an executor re-wrapping the stock answer); agents do not "
+               "share protein objects; the exceptions that are not Exceptions are KeyboardInterrupt, SystemExit, GeneratorExit and "
+               "one own BaseException subclass, raised synchronously inside express(); whether run() was left by THE exception "
+               "the agent raised is decided by object identity",
                "virtual clock: loops.datetime rebound to an object whose now() is constant during one half of a request (a request that is suspended ends at a later clock value than it began); times, "
                "TTLs and recovery times are whole milliseconds (x_seconds = ms/1000.0, exact in timedelta's microseconds)"]
     ASSUMPTIONS = ["cache theorem: md5(prompt)[:16] (K) is injective on the prompts of the history; token theorems: so is sha256(prompt)[:16] (H)",
@@ -439,7 +528,8 @@ class C07(Check):
                    "failure_threshold, recovery_timeout, timeout_seconds (values of the constructor's types); executor / assessor objects, callbacks, "
                    "silent and private attributes are not replaced or mutated during a history",
                    "prompts are UTF-8 encodable str (run() raises UnicodeEncodeError on a lone surrogate: no reply at all)",
-                   "an 'agent exception' is an Exception subclass (BaseException such as KeyboardInterrupt propagates)",
+                   "an agent's BaseException that is not an Exception reaching the caller of run() is 'no reply' (nothing came back, so "
+                   "nothing came back not-blocked); had run() returned a reply at such a request it would have to be blocked",
                    "callers and callbacks do not mutate a returned LoopResult (the cache hands out the stored object itself); callbacks do not raise"]
 
     # -- translator by enumeration -------------------------------------------
@@ -520,6 +610,10 @@ class C07(Check):
             builtin = overlap is None and rng.random() < 0.08       # the loop's own BioAgents (behind a recorder) instead of stubs
             # 3 in 10 histories reconfigure the live loop object(s): one operation in seven is an assignment
             reconf = rng.random() < 0.3
+            # 3 in 10 histories have agents whose proteins carry a source_agent label; 1 in 5 has agents that may raise
+            # a BaseException that is not an Exception
+            var = (lambda: rng.randrange(72)) if rng.random() < 0.3 else (lambda: rng.randrange(9))
+            aborts = rng.random() < 0.2
             loops = []
             for _k in range(nloops):
                 u = rng.random()
@@ -533,6 +627,8 @@ class C07(Check):
                                        name=rng.randrange(len(NAMES)), silent=rng.random() < 0.75,
                                        callbacks=rng.random() < 0.4, agents=("builtin-other-role" if rng.random() < 0.15 else "builtin") if builtin else "stub",
                                        budget=rng.choice([100, 100, 50, 1000]), **brk))
+                if builtin and rng.random() < 0.3:
+                    loops[-1]["agents"] = "builtin-relay"
             if nloops == 2 and rng.random() < 0.5:      # two objects that differ in nothing / only in the logic
                 loops[1] = dict(loops[0], logic=rng.choice([loops[0]["logic"], rng.randrange(6)]))
             if builtin:
@@ -576,14 +672,19 @@ class C07(Check):
                         z = 7
                     else:
                         y = 7
+                if aborts and rng.random() < 0.25:
+                    if rng.random() < 0.5:
+                        z = ABORT
+                    else:
+                        y = ABORT
                 if builtin:
                     z = y = 0           # not scripted: the built-in agents answer (recorded at run time)
                 if overlap and len(flying) < 3 and rng.random() < 0.45:
-                    ops.append([lp, "b", next_id, rng.choice(ps), t, z, rng.randrange(9), y, rng.randrange(9), rng.randrange(2)])
+                    ops.append([lp, "b", next_id, rng.choice(ps), t, z, var(), y, var(), rng.randrange(2)])
                     flying.append((lp, next_id))
                     next_id += 1
                     continue
-                ops.append([lp, "r", rng.choice(ps), t, z, rng.randrange(9), y, rng.randrange(9)])
+                ops.append([lp, "r", rng.choice(ps), t, z, var(), y, var()])
             if overlap:
                 # the requests still in flight return (a threaded history may leave some suspended for good),
                 # then the prompts are asked for once more: what did the overlap leave in the cache?
@@ -864,6 +965,112 @@ class C07(Check):
                         i += 1
         return out
 
+    # agents at large.  (1) an agent raises a BaseException that is not an Exception: every gate logic x the four classes
+    # x executor / assessor x what the loop holds for the prompt (nothing, a valid approval, an expired one) and what it
+    # holds afterwards; every gate logic x 9 situations (the other agent's verdict, the breaker, requests in flight ...);
+    # (2) proteins that carry a source_agent: every gate logic x every label on the assessor's protein x fresh and
+    # cached replies, renamed assessors; BioAgent subclasses that relay a helper's protein
+    ABORT_SCENARIOS = ["other-verdicts", "breaker-not-told", "breaker-probe", "in-flight-threads", "in-flight-nested",
+                       "while-another-in-flight", "two-loops", "slow-then-abort", "reconfigured"]
+
+    def _abort_cases(self):
+        out = []
+        i = 0
+        for l in range(6):
+            for k in range(len(ABORTS)):
+                for who in (0, 1):
+                    p, q = PROMPTS[i % len(PROMPTS)], PROMPTS[(i + 7) % len(PROMPTS)]
+                    if p == q:
+                        p, q = "a", "b"
+                    ab = (ABORT, 1) if who == 0 else ((0, 1, 2, 3)[i % 4], ABORT)
+                    R = lambda pr, t, zz=0, yy=1: [0, "r", pr, t, zz, k, yy, k + 9 * (i % 8)]
+                    ttl = (50, 2000)[i % 2]
+                    ops = [R(p, 0), R(q, 1, *ab), R(q, 2), R(q, 3, 2, 2), [0, "c"], R(q, 4, *ab), R(q, 5, 2, 2),
+                           R(p, ttl - 1, *ab), R(p, ttl, *ab), [0, "o"], R(p, ttl + 1, 2, 2), R(p, ttl + 2, 0, 1)]
+                    out.append({"loops": [self._cfg(l, ttl=ttl, name=i % len(NAMES), silent=(i % 5 != 0), callbacks=(i % 3 == 0),
+                                                    breaker=(i % 4 == 1))], "ops": ops})
+                    i += 1
+        for l in range(6):
+            for sc in self.ABORT_SCENARIOS:
+                k = i % len(ABORTS)
+                p, q = PROMPTS[i % len(PROMPTS)], PROMPTS[(i + 7) % len(PROMPTS)]
+                if p == q:
+                    p, q = "a", "b"
+                R = lambda pr, t, zz=0, yy=1, lp=0: [lp, "r", pr, t, zz, k, yy, k]
+                A = lambda t, pr, rid, zz, yy, w=0: [0, "b", rid, pr, t, zz, k, yy, k, w]
+                cfg = self._cfg(l, ttl=1000, name=i % len(NAMES), silent=(i % 5 != 0), callbacks=(i % 3 == 0))
+                case = {"loops": [cfg]}
+                if sc == "other-verdicts":      # whatever the other agent says (or would have said)
+                    ops = [R(f"{p[:10]} z{z}", z, z, ABORT) for z in range(8)] + [R(f"{p[:10]} y{y}", 10 + y, ABORT, y) for y in range(8)] + \
+                          [R(f"{p[:10]} zz", 20, ABORT, ABORT), R(f"{p[:10]} z3", 21, 2, 2), R(f"{p[:10]} y1", 22, 2, 2)]
+                elif sc == "breaker-not-told":  # an exception that leaves run() is no failure the breaker hears of
+                    cfg.update(breaker=True, threshold=1, recovery=1000)
+                    ops = [R(p, 0), R(q, 1, ABORT, 1), R(q, 2, 0, ABORT), R(q, 3), R(q, 4, 7, 1), R(p, 5), R(q, 6, ABORT, 1)]
+                elif sc == "breaker-probe":     # the probe after the recovery time is left by the exception: HALF_OPEN stays
+                    cfg.update(breaker=True, threshold=1, recovery=100)
+                    ops = [R(q, 0, 7, 1), R(p, 50), R(p, 100, ABORT, 1), R(p, 101), R(q, 102, 0, 7), R(q, 103), R(q, 202, 0, ABORT), R(q, 203, 3, 2),
+                           R(p, 204)]
+                elif sc in ("in-flight-threads", "in-flight-nested"):
+                    ops = [A(0, p, 0, ABORT, 1), R(q, 1), [0, "e", 0, 2], R(p, 3), A(4, q + "!", 1, 0, ABORT, 1), R(p, 5, 2, 2), [0, "e", 1, 6],
+                           R(q + "!", 7), A(8, p + "!", 2, 7, ABORT, 1), [0, "e", 2, 9], R(p + "!", 10)]
+                    case["overlap"] = sc[10:]
+                elif sc == "while-another-in-flight":
+                    ops = [A(0, p, 0, 0, 1, i % 2), R(p, 1, ABORT, 1), R(q, 2, 0, ABORT), [0, "e", 0, 3], R(p, 4, ABORT, 1), R(q, 5)]
+                    case["overlap"] = ("threads", "nested")[i % 2]
+                elif sc == "two-loops":
+                    case["loops"] = [cfg, dict(cfg, logic=(l + 1) % 6)]
+                    ops = [R(p, 0), R(p, 1, ABORT, 1, lp=1), R(p, 2, 2, 2), R(p, 3, lp=1), R(q, 4, 0, ABORT), R(q, 5, 2, 2, lp=1), R(q, 6)]
+                elif sc == "slow-then-abort":   # the agent works for a while, then raises: the time it took leaves no trace
+                    cfg.update(timeout=SHORT_TIMEOUTS[i % 3], ttl=50)
+                    ops = [R(p, 0) + [5, 5], R(p, 20, ABORT, 1) + [30, 0], R(p, 59, 0, ABORT) + [3, 30], R(p, 60, 0, ABORT) + [3, 30], R(p, 61),
+                           R(p, 62, 2, 2)]
+                else:                           # reconfigured: assignments around a request that is left by the exception
+                    ops = [R(p, 0), [0, "s", "logic", (l + 1) % 6], R(q, 1, ABORT, 1), [0, "s", "cache", False], R(p, 2, 0, ABORT),
+                           [0, "s", "cache", True], R(p, 3, 2, 2), R(q, 4)]
+                case["ops"] = ops
+                out.append(case)
+                i += 1
+        return out
+
+    LABEL_PAIRS = [(0, 1), (1, 1), (2, 1), (3, 1), (4, 1), (0, 0), (6, 1), (0, 2)]
+
+    def _label_cases(self):
+        out = []
+        i = 0
+        for l in range(6):
+            for ly in range(len(LABELS)):
+                lz = (ly + i) % len(LABELS)
+                p = PROMPTS[i % len(PROMPTS)]
+                n0, n1 = (i + 3) % len(NAMES), (i + 1) % len(NAMES)
+                R = lambda pr, t, zz, yy, a=lz, b=ly: [0, "r", pr, t, zz, 9 * a + i % 9, yy, 9 * b + i % 9]
+                ops = [R(f"{p[:10]} {j}", j, z, y) for j, (z, y) in enumerate(self.LABEL_PAIRS)]
+                ops += [R(f"{p[:10]} {j}", 10 + j, 2, 2, 0, 0) for j in range(len(self.LABEL_PAIRS))]       # served from the cache
+                ops += [[0, "s", "name", n1], R(f"{p[:10]} 0", 20, 2, 2), [0, "c"], R(f"{p[:10]} 0", 21, 0, 1), R(f"{p[:10]} 1", 22, 0, 1, ly, lz),
+                        R(f"{p[:10]} 0", 23, 2, 2, 0, 0)]
+                out.append({"loops": [self._cfg(l, ttl=1000, name=n0, silent=(i % 5 != 0), callbacks=(i % 3 == 0))], "ops": ops})
+                i += 1
+        # a labelled protein on a request that is in flight, and on a slow one
+        for l in range(6):
+            for mode in ("threads", "nested"):
+                ly = 1 + i % (len(LABELS) - 1)
+                p, q = PROMPTS[i % len(PROMPTS)], PROMPTS[(i + 7) % len(PROMPTS)]
+                if p == q:
+                    p, q = "a", "b"
+                ops = [[0, "b", 0, p, 0, 0, 9 * ly, 1, 9 * ly, i % 2], [0, "s", "name", (i + 1) % len(NAMES)], [0, "r", q, 1, 0, 9 * ly, 1, 9 * ly, 3, 5],
+                       [0, "e", 0, 10], [0, "r", p, 11, 2, 0, 2, 0], [0, "r", q, 12, 2, 0, 2, 0]]
+                out.append({"loops": [self._cfg(l, ttl=1000, name=i % len(NAMES), timeout=SHORT_TIMEOUTS[i % 3])], "ops": ops, "overlap": mode})
+                i += 1
+        # BioAgent subclasses: the assessor relays a helper agent's protein
+        for l in range(6):
+            for budget in (1000, 50):
+                ps = [self.BUILTIN_PROMPTS[(i + 3 * j) % len(self.BUILTIN_PROMPTS)] for j in range(4)]
+                seq = [ps[0], ps[1], ps[0], ps[2], ps[3], ps[1]]
+                ops = [[0, "r", pr, j, 0, 0, 0, 0] for j, pr in enumerate(seq)]
+                out.append({"loops": [self._cfg(l, name=0, silent=(i % 2 == 0), callbacks=(i % 2 == 1), agents="builtin-relay", budget=budget)],
+                            "ops": ops})
+                i += 1
+        return out
+
     # the circuit breaker may only REJECT.  Every gate logic x how it is tripped x where the clock stands
     # relative to the recovery time when the next request arrives x what that request (the probe) is
     TRIPS = [("executor-raises", 7, 1), ("assessor-raises", 0, 7), ("executor-FAILURE", 3, 2)]
@@ -981,6 +1188,8 @@ class C07(Check):
         out += self._overlap_cases()
         out += self._reconf_cases()
         out += self._timed_cases()
+        out += self._abort_cases()
+        out += self._label_cases()
         # every re-spelling of a text is a request of its own: the text is approved and cached first,
         # then each re-spelling is sent within the TTL while the agents would now block
         for b in BASES:
@@ -1062,6 +1271,11 @@ class C07(Check):
                         if cfg["agents"] == "builtin-other-role":   # an agent of a role the mock LLM has no instruction for
                             from operon_ai.core.agent import BioAgent
                             loop.executor = BioAgent("Gene_Z (Exec)", role="Planner", atp_store=loop.budget)
+                        if cfg["agents"] == "builtin-relay":
+                            # agents that are SUBCLASSES of BioAgent: the assessor plugs a helper agent (a BioAgent with a
+                            # name of its own) into the _mock_llm hook and relays the helper's protein; the executor
+                            # subclass hands on what the stock executor says, as a protein of its own making
+                            loop.assessor, loop.executor = make_relay_agents(loop)
                         ex, asr = Recorder(loop.executor), Recorder(loop.assessor)
                     else:
                         ex = Stub("Gene_Z (Exec)" if cfg["name"] != 2 else "Z", ActionProtein, 0, ctx)
@@ -1117,6 +1331,13 @@ class C07(Check):
                             raise
                         except Exception as e:
                             rq["raised"] = type(e).__name__
+                        except BaseException as e:
+                            # the very exception an agent raised at this request (not an Exception) has reached
+                            # the caller of run(): no reply.  Anything else is the driver's own business
+                            if e is not rq.get("abort"):
+                                raise
+                            rq["raised"] = type(e).__name__
+                            rq["propagated"] = True
                     finally:
                         st.pop()
 
@@ -1151,8 +1372,12 @@ class C07(Check):
                     rec["logic_assigned_at"] = [j for j, a, _v in setlog[lp] if a == "logic"]
                     if "raised" in rq:
                         rec["raised"] = rq["raised"]
+                        rec["propagated"] = bool(rq.get("propagated"))
+                        rec["overlapped"] = bool(rq.get("suspended"))
+                        ec, ac = (ex.calls - rq["e0"], asr.calls - rq["a0"]) if rq["builtin"] else rq["called"]
+                        rec.update(exec_called=ec, assess_called=ac)
                         said.append((5, 5))
-                        obs[i] = [-997]
+                        obs[i] = [-997, ec, ac, self._cache_size(loop)]
                         return
                     res = rq["res"]
                     if rq["builtin"]:
@@ -1193,7 +1418,7 @@ class C07(Check):
                 def begin(i, op):
                     (lp, _k, rid, p, t, z, zv, y, yv, where) = op
                     clock.t = t
-                    rq = new_rq(i, lp, p, t, z, zv, y, yv, suspend=0 if z == 7 else int(where))
+                    rq = new_rq(i, lp, p, t, z, zv, y, yv, suspend=0 if z in RAISING else int(where))
                     rq["id"] = rid
                     if rq["builtin"]:
                         raise HarnessBug("overlapping requests are driven with stub agents only")
@@ -1341,31 +1566,60 @@ class C07(Check):
                 self._safe_impl(case)
             said = iter(self._said[self._key(case)])
         ops = []
+        copt = lambda v: "None" if v is None else f"(Some {cstr(v)})"
+        stub = [not str(c.get("agents")).startswith("builtin") for c in case["loops"]]
+
+        def wrap(lp, inner, zv, yv):
+            """The operation as it is, or - stub agents whose proteins carry a source_agent - with the labels."""
+            sz, sy = (label_of(zv), label_of(yv)) if stub[lp] else (None, None)
+            if sz is None and sy is None:
+                return f"CPlain ({inner})"
+            return f"CLabelled {copt(sz)} {copt(sy)} ({inner})"
+
+        def aborting(z, y):
+            """None: no agent that is asked raises a BaseException that is not an Exception; else who does
+            (False = the executor, True = the assessor, reached only if the executor did not raise)."""
+            if z == ABORT:
+                return False
+            if y == ABORT and z != 7:
+                return True
+            return None
+
+        vq = lambda c: VERDICT_COQ[c if c < 8 else 5]      # a verdict that is never looked at: VUnknown
+        begun = {}      # (loop, id) -> (z, y) of the latest begin
         for op in case["ops"]:
             b = cbool(op[0] == 1)
             if op[1] == "r":
-                (p, t, z, _zv, y, _yv) = op[2:8]
+                (p, t, z, zv, y, yv) = op[2:8]
                 if said is not None:
                     z, y = next(said)
-                if len(op) >= 10:       # agents that need time
-                    ops.append(ctuple(b, f"CSlow {cstr(p)} {cz(t)} {VERDICT_COQ[z]} {VERDICT_COQ[y]} {cz(op[8])} {cz(op[9])}"))
+                who = aborting(z, y)
+                if who is not None:
+                    ops.append(ctuple(b, f"CAbort {cstr(p)} {cz(t)} {vq(z)} {cbool(who)}"))
+                elif len(op) >= 10:       # agents that need time
+                    ops.append(ctuple(b, wrap(op[0], f"CSlow {cstr(p)} {cz(t)} {vq(z)} {vq(y)} {cz(op[8])} {cz(op[9])}", zv, yv)))
                 else:
-                    ops.append(ctuple(b, f"CReq {cstr(p)} {cz(t)} {VERDICT_COQ[z]} {VERDICT_COQ[y]}"))
+                    ops.append(ctuple(b, wrap(op[0], f"CReq {cstr(p)} {cz(t)} {vq(z)} {vq(y)}", zv, yv)))
             elif op[1] == "b":
-                (rid, p, t, z, _zv, y, _yv, _where) = op[2:]
-                ops.append(ctuple(b, f"CBegin {cz(rid)} {cstr(p)} {cz(t)} {VERDICT_COQ[z]} {VERDICT_COQ[y]}"))
+                (rid, p, t, z, zv, y, yv, _where) = op[2:]
+                begun[(op[0], rid)] = (z, y)
+                ops.append(ctuple(b, wrap(op[0], f"CBegin {cz(rid)} {cstr(p)} {cz(t)} {vq(z)} {vq(y)}", zv, yv)))
             elif op[1] == "e":
-                ops.append(ctuple(b, f"CEnd {cz(op[2])} {cz(op[3])}"))
+                who = aborting(*begun.get((op[0], op[2]), (5, 5)))
+                if who is not None:
+                    ops.append(ctuple(b, f"CEndAbort {cz(op[2])} {cz(op[3])} {cbool(who)}"))
+                else:
+                    ops.append(ctuple(b, f"CPlain (CEnd {cz(op[2])} {cz(op[3])})"))
             elif op[1] == "s":
                 attr, v = op[2], op[3]
                 if attr == "timeout":
-                    ops.append(ctuple(b, f"CSetTimeout {cz(v)}"))
+                    ops.append(ctuple(b, f"CPlain (CSetTimeout {cz(v)})"))
                     continue
                 arg = (LOGIC_COQ[v] if attr == "logic" else cstr(NAMES[v]) if attr == "name"
                        else cbool(v) if attr in ("cache", "breaker") else cz(v))
-                ops.append(ctuple(b, f"CSet ({SETTINGS[attr]} {arg})"))
+                ops.append(ctuple(b, f"CPlain (CSet ({SETTINGS[attr]} {arg}))"))
             else:
-                ops.append(ctuple(b, {"c": "CClear", "o": "CObserve", "x": "CReset"}[op[1]]))
+                ops.append(ctuple(b, "CPlain " + {"c": "CClear", "o": "CObserve", "x": "CReset"}[op[1]]))
         loops = case["loops"]
         return ctuple(self._coq_cfg(loops[0]), self._coq_cfg(loops[-1]), cnat(CAP), clist(ops))
 
@@ -1391,12 +1645,27 @@ class C07(Check):
         # call of run(), whatever other requests were in flight meanwhile.
         original = {}
         token_for = {}      # request hash on a token -> the prompt it was given for
+        cleared_at = {}
         for i, r in enumerate(trace["recs"]):
+            if r["op"] == "c":
+                # clear_cache(): the caller has flushed this loop object's cache.  Whatever is answered from now on
+                # without asking the agents is not a reply out of the cache (there is nothing in it): the replies
+                # returned so far are nobody's original any more (a request still in flight returns - and may be
+                # stored - afterwards)
+                original = {k: v for k, v in original.items() if k[0] != r["loop"]}
+                cleared_at[r["loop"]] = i
+                continue
             if r["op"] != "r":
                 continue
             if "raised" in r:
                 if r["raised"] == "UnicodeEncodeError":
                     continue        # no reply at all for an unencodable prompt (outside the domain; recorded)
+                if r.get("propagated"):
+                    # the exception that left run() is the one an agent raised at this very request, and it is not an
+                    # Exception (KeyboardInterrupt, SystemExit, GeneratorExit ...): it has reached the caller, NOTHING
+                    # came back - there is no reply the property could call not-blocked, and nothing to repeat later
+                    # (a later reply to this prompt for which nobody is asked still needs an original of its own)
+                    continue
                 return Violation("C07/run-raises", f"request {i} ({r['prompt']!r}): run() raised {r['raised']} instead of returning a blocked result")
             verdict = (r["blocked"], r["success"], r["action"], r["token"])
             if r["exec_called"] == 0 and r["assess_called"] == 0 and r["blocked"] and r["token"] is None \
@@ -1405,7 +1674,8 @@ class C07(Check):
             if r["exec_called"] == 0 and r["assess_called"] == 0:
                 cands = original.get((r["loop"], r["prompt"]))
                 if not cands:
-                    return Violation("C07/cache-no-original", f"request {i} ({r['prompt']!r}) was answered without asking the agents but no earlier reply of this loop to this prompt exists for which they were asked")
+                    since = f" since clear_cache() at operation {cleared_at[r['loop']]}" if r["loop"] in cleared_at else ""
+                    return Violation("C07/cache-no-original", f"request {i} ({r['prompt']!r}) was answered without asking the agents ({'not blocked' if not r['blocked'] else 'blocked'}, action {r['action']}, token {'yes' if r['token'] else 'no'}) but no earlier reply of this loop to this prompt exists{since} for which they were asked")
                 o = next((c for c in cands if verdict == (c["blocked"], c["success"], c["action"], c["token"])), None)
                 if o is None:
                     o = cands[0]
@@ -1437,8 +1707,11 @@ class C07(Check):
                 at = [j for j in r["logic_assigned_at"] if j < i]
                 if at:
                     logic += f" (gate_logic assigned at operation {at[-1]}; the loop was built with {trace['logics'][r['loop']]})"
-                if z == 7 or y == 7:
-                    return Violation("C07/exception-not-blocked", f"request {i} ({r['prompt']!r}): {'the executor' if z == 7 else 'the assessor'} raised but the result is not blocked ({logic}; action {r['action']}, cached flag {r['cached']}, token {'yes' if r['token'] else 'no'})" + timing)
+                if z in RAISING or y in RAISING:
+                    src = r if (r["exec_called"] or r["assess_called"]) else o
+                    what = "" if ABORT not in (z, y) else \
+                        f" {ABORTS[self._var_of(case, src, 0 if z == ABORT else 1) % len(ABORTS)].__name__} (a BaseException that is not an Exception)"
+                    return Violation("C07/exception-not-blocked", f"request {i} ({r['prompt']!r}): {'the executor' if z in RAISING else 'the assessor'} raised{what} but the result is not blocked ({logic}; action {r['action']}, cached flag {r['cached']}, token {'yes' if r['token'] else 'no'})" + timing)
                 if z in UNKNOWN_CODES and y in UNKNOWN_CODES:
                     return Violation("C07/unknown-not-blocked", f"request {i}: both verdicts unknown ({VERDICT_COQ[z]}, {VERDICT_COQ[y]}) but not blocked under {logic}" + timing)
                 return Violation("C07/pass-without-approvals", f"request {i}: not blocked under {logic} with executor {VERDICT_COQ[z]} / assessor {VERDICT_COQ[y]}" + timing)
@@ -1450,10 +1723,20 @@ class C07(Check):
                 if h != sha16(r["prompt"]):
                     return Violation("C07/token-hash-not-bound", f"request {i}: token hash {h} is not sha256({r['prompt']!r})[:16] = {sha16(r['prompt'])}")
                 if issuer not in names:
-                    return Violation("C07/token-issuer", f"request {i}: token issuer {issuer!r} is not the assessor {'/'.join(repr(n) for n in names)}")
+                    src = r if (r["exec_called"] or r["assess_called"]) else o
+                    lab = label_of(self._var_of(case, src, 1)) if case["loops"][r["loop"]].get("agents", "stub") == "stub" else None
+                    how = f" (the assessor's protein carried source_agent={lab!r})" if lab is not None else \
+                        f" (agents: {case['loops'][r['loop']].get('agents')})" if case["loops"][r["loop"]].get("agents", "stub") != "stub" else ""
+                    return Violation("C07/token-issuer", f"request {i} ({r['prompt']!r}): token issuer {issuer!r} is not the assessor {'/'.join(repr(n) for n in names)}" + how)
                 if token_for.setdefault(h, r["prompt"]) != r["prompt"]:
                     return Violation("C07/token-shared-between-requests", f"request {i}: the token for {r['prompt']!r} carries the same request hash {h} as the token given for {token_for[h]!r}")
         return None
+
+    @staticmethod
+    def _var_of(case, r, role):
+        """The `var` of the executor's (role 0) / the assessor's (role 1) verdict at the request record r."""
+        op = case["ops"][r["begun"]]
+        return op[(5, 7)[role]] if op[1] == "r" else op[(6, 8)[role]]
 
     @staticmethod
     def _timing(r):
@@ -1528,6 +1811,13 @@ class C07(Check):
                 ks.append("overlap/begin-returned-at-once")
             if "raised" in r:
                 ks.append("run-raised")
+                if r.get("propagated"):
+                    ks.append(f"agent-abort/{r['raised']}-reached-the-caller")
+                    ks.append("agent-abort/raised-by-" + ("assessor" if r.get("assess_called") else "executor"))
+                    if (r["loop"], r["prompt"]) in passed:
+                        ks.append("agent-abort/prompt-passed-earlier")
+                    if r.get("overlapped"):
+                        ks.append("agent-abort/request-was-in-flight")
                 continue
             if r["action"] == "CIRCUIT_OPEN":
                 ks.append("reply=rejected-by-breaker")
@@ -1552,6 +1842,16 @@ class C07(Check):
                     ks.append("timed/executor-raised-assessor-delay-not-spent")
             ks.append("reply=cache-hit" if r["cached"] else "reply=fresh")
             ks.append("reply=not-blocked" if not r["blocked"] else f"reply=blocked/{r['action']}")
+            if ABORT in (r["z"], r["y"]):
+                ks.append("agent-abort/scripted-but-nobody-asked" if not r["exec_called"] else "agent-abort/assessor-not-reached")
+            if case["loops"][r["loop"]].get("agents", "stub") == "stub" and case["ops"][r["begun"]][1] in ("r", "b"):
+                ly = label_of(self._var_of(case, r, 1))
+                if ly is not None and r["assess_called"]:
+                    ks.append("label/assessor-protein-labelled")
+                    if r["token"] is not None:
+                        ks.append("label/token-from-labelled-protein=" + ("own-name" if ly == r["assessor_name"] else "executor-name" if ly in ("Gene_Z (Exec)", "Z") else "empty" if ly == "" else "other"))
+                if label_of(self._var_of(case, r, 0)) is not None and r["exec_called"]:
+                    ks.append("label/executor-protein-labelled")
             if r["token"] is not None:
                 ks.append("reply=with-token")
                 if not r["prompt"].isascii():
